@@ -250,10 +250,44 @@ def run_case(R, obs, rng, tier, ops, kind, tree, alts, ctx_list, label, value_ch
             res = diff.check_program(R, obs, case, module, "f", inputs, "value:%s:%s" % (label.split("/")[0], cname), source=text)
             if res["runnable"] and separated and res["bad"] == 0:
                 R.nontriv(text, repr(inputs))
+        if cname == "return":
+            wasm_value_probe(R, case, module, tree, texts[0], names, vectors, kind)
         if separated:
             R.count("separated_cases")
         else:
             R.count("not_separated_cases")
+
+
+def wasm_value_probe(R, case, module, tree, text, names, vectors, kind):
+    """the same expression through the WebAssembly backend (where it translates it at all): the emitted code must evaluate the
+    declared grouping too — operand order on the wasm stack is where a backend can regroup or swap"""
+    from .. import wasmrun
+    for opt in (False, True):
+        e = wasmrun.emit(text, opt)
+        if e.data is None or e.refused or e.decode_error or e.validation_error:
+            R.count("wasm_probe_refused_or_invalid(C06/C07 territory)")
+            continue
+        R.count("wasm_probe_modules")
+        for env in vectors:
+            exp = eval_tree(tree, env)
+            if exp[0] != "v":
+                continue
+            st, got = wasmrun.run_export(e, "f", [env[n] for n in names])
+            R.evaluations += 1
+            R.count("wasm_probe_runs")
+            if st == "trap":
+                continue        # (division by zero traps; C06 judges traps)
+            want = exp[1]
+            if kind == "int" or isinstance(want, int):
+                ok = st == "ok" and isinstance(got, (int, float)) and (int(got) & 0xFFFFFFFF) == (int(want) & 0xFFFFFFFF)
+            else:
+                ok = st == "ok" and got is not None and abs(got - want) <= 1e-5 * max(1.0, abs(want))
+            if not ok:
+                R.violation("wasm-value:%s" % _mech(case.split(":")[-1].split(" "), None, None),
+                            "%s (%s): the emitted WebAssembly returns %r for %s, the declared grouping gives %r" % (case, "O1" if opt else "O0", (st, got), env, want),
+                            {"sources": {"main": text}, "case": case, "optimize": opt, "mode": "wasm", "inputs": {"args": env}, "expected": want, "names": names})
+                return
+    R.nontriv("wasm", text)
 
 
 def literal_cases(R, obs, rng, ops, kind):
@@ -421,6 +455,18 @@ def finalize(M, tier):
 
 def replay(case):
     text = case["sources"]["main"]
+    if case.get("mode") == "wasm":
+        from .. import wasmrun
+        e = wasmrun.emit(text, bool(case.get("optimize")))
+        if e.data is None or e.refused or e.decode_error or e.validation_error:
+            return False, {"refused": True}
+        st, got = wasmrun.run_export(e, "f", [case["inputs"]["args"][n] for n in case["names"]])
+        want = case["expected"]
+        if isinstance(want, int):
+            ok = st == "ok" and (int(got) & 0xFFFFFFFF) == (want & 0xFFFFFFFF)
+        else:
+            ok = st == "ok" and abs(got - want) <= 1e-5 * max(1.0, abs(want))
+        return (not ok and st != "trap"), {"status": st, "value": got, "expected": want}
     if "expected_tree" in case and "function" not in case:
         m = parse(text)
         if m is None:
